@@ -153,8 +153,13 @@ def gen_cases(ctx):
             c = gen.rand_case(rng, 5, 5, 0, costs=any_costs(rng))
         elif k < 0.65:
             c = gen.rand_case(rng, 4, 4, rng.randint(1, 3), plain=False, costs=any_costs(rng))
-        else:
+        elif k < 0.85:
             c = gen.rand_case(rng, 5, 4, rng.randint(1, 4), plain=False, unordered=True, costs=any_costs(rng))
+        else:
+            # larger balanced trees with clade-structured families (sibling INHERIT chains), tie-prone costs
+            # (unordered only: the ordered solvers enumerate every root order and are far too slow here)
+            costs = solvers.label_costs(rng) if rng.random() < 0.4 else {"spe": 0, "dup": 1, "hgt": 1, "floss": 1, "sloss": 1}
+            c = gen.clade_case(rng, 6, 7, 2, rng.randint(3, 4), True, costs)
         out.append(c)
     return out
 
